@@ -22,6 +22,10 @@ use std::fs::File;
 use std::io::{BufReader, Read, Seek, SeekFrom};
 use std::path::{Path, PathBuf};
 
+/// Sizes declared by an archive only bound pre-allocations up to this many bytes;
+/// larger outputs grow as their sectors are actually decoded
+const MAX_PREALLOC: usize = 16 * 1024 * 1024;
+
 /// Detailed information about an MPQ archive
 #[derive(Debug, Clone)]
 pub struct ArchiveInfo {
@@ -527,7 +531,7 @@ impl Archive {
                 } else {
                     // If block table comes before hash table, calculate differently
                     let file_size = self.reader.get_ref().metadata()?.len();
-                    (file_size - hash_table_offset) as usize
+                    file_size.saturating_sub(hash_table_offset) as usize
                 };
 
                 if available_space < uncompressed_size {
@@ -827,8 +831,22 @@ impl Archive {
             // Read raw table data
             self.reader
                 .seek(SeekFrom::Start(self.archive_offset + offset))?;
-            let mut table_data = vec![0u8; size as usize];
-            match self.reader.read_exact(&mut table_data) {
+            // The size comes from the archive header: read through a length-limited
+            // adapter instead of allocating it up front
+            let mut table_data = Vec::new();
+            let read = self
+                .reader
+                .by_ref()
+                .take(size)
+                .read_to_end(&mut table_data)
+                .and_then(|n| {
+                    if n as u64 == size {
+                        Ok(())
+                    } else {
+                        Err(std::io::Error::from(std::io::ErrorKind::UnexpectedEof))
+                    }
+                });
+            match read {
                 Ok(_) => {
                     // Calculate MD5
                     let mut hasher = Md5::new();
@@ -1635,8 +1653,7 @@ impl Archive {
 
         if file_info.is_single_unit() || !file_info.is_compressed() {
             // Single unit or uncompressed file - read directly
-            let mut data = vec![0u8; file_info.compressed_size as usize];
-            self.reader.read_exact(&mut data)?;
+            let mut data = self.read_bounded(file_info.compressed_size as usize)?;
 
             // Decrypt if needed
             if file_info.is_encrypted() {
@@ -1669,6 +1686,9 @@ impl Archive {
                 // CRC is calculated on the decompressed data
                 let data_to_check = if file_info.is_compressed() {
                     // We need to decompress first to check CRC
+                    if data.is_empty() {
+                        return Err(Error::compression("Compressed file has no data"));
+                    }
                     let compression_type = data[0];
                     let compressed_data = &data[1..];
                     compression::decompress(
@@ -1853,11 +1873,16 @@ impl Archive {
 
         if is_single_unit {
             log::debug!("Patch file is stored as single unit");
-            let compressed_data_size =
-                file_info.compressed_size as usize - patch_info_length as usize;
+            let compressed_data_size = (file_info.compressed_size as usize)
+                .checked_sub(patch_info_length as usize)
+                .ok_or_else(|| {
+                    Error::invalid_format(format!(
+                        "Patch info length {patch_info_length} exceeds the stored size {}",
+                        file_info.compressed_size
+                    ))
+                })?;
 
-            let mut data = vec![0u8; compressed_data_size];
-            self.reader.read_exact(&mut data)?;
+            let mut data = self.read_bounded(compressed_data_size)?;
 
             log::debug!(
                 "Read {} bytes of compressed patch data (single unit)",
@@ -1877,6 +1902,9 @@ impl Archive {
 
             // Decompress if needed
             if file_info.is_compressed() {
+                if data.is_empty() {
+                    return Err(Error::compression("Compressed patch file has no data"));
+                }
                 let compression_type = data[0];
                 let compressed_data = &data[1..];
 
@@ -1908,8 +1936,7 @@ impl Archive {
 
             // Read sector offset table
             let offset_table_size = (sector_count + 1) * 4;
-            let mut offset_data = vec![0u8; offset_table_size];
-            self.reader.read_exact(&mut offset_data)?;
+            let offset_data = self.read_bounded(offset_table_size)?;
 
             log::debug!(
                 "Read sector offset table: {} bytes for {} sectors",
@@ -1927,12 +1954,17 @@ impl Archive {
             log::debug!("Sector offsets: {:?}", &sector_offsets);
 
             // Read and decompress each sector
-            let mut decompressed_data = Vec::with_capacity(patch_data_size as usize);
+            let mut decompressed_data = Vec::with_capacity((patch_data_size as usize).min(MAX_PREALLOC));
 
             for i in 0..sector_count {
                 let sector_start = sector_offsets[i] as usize;
                 let sector_end = sector_offsets[i + 1] as usize;
-                let sector_compressed_size = sector_end - sector_start;
+                let sector_compressed_size =
+                    sector_end.checked_sub(sector_start).ok_or_else(|| {
+                        Error::invalid_format(format!(
+                            "Invalid sector offsets for patch sector {i}: start={sector_start}, end={sector_end}"
+                        ))
+                    })?;
 
                 log::debug!(
                     "Reading sector {}: offset={}, size={} bytes",
@@ -1948,8 +1980,7 @@ impl Archive {
 
                 self.reader.seek(SeekFrom::Start(sector_file_pos))?;
 
-                let mut sector_data = vec![0u8; sector_compressed_size];
-                self.reader.read_exact(&mut sector_data)?;
+                let sector_data = self.read_bounded(sector_compressed_size)?;
 
                 log::debug!(
                     "Sector {} data first 16 bytes: {:02X?}",
@@ -1959,6 +1990,9 @@ impl Archive {
 
                 // Patch file sectors use standard MPQ compression (Zlib/BZip2/etc)
                 // First byte indicates compression method, remaining bytes are compressed PTCH data
+                if sector_data.is_empty() {
+                    return Err(Error::compression(format!("Patch sector {i} is empty")));
+                }
                 let compression_method = sector_data[0];
                 log::debug!(
                     "Decompressing sector {} with method 0x{:02X} ({} bytes compressed)",
@@ -1969,7 +2003,7 @@ impl Archive {
 
                 // Decompress using standard MPQ decompression
                 let expected_size =
-                    sector_size.min(patch_data_size as usize - decompressed_data.len());
+                    sector_size.min((patch_data_size as usize).saturating_sub(decompressed_data.len()));
                 let sector_decompressed = compression::decompress(
                     &sector_data[1..], // Skip compression method byte
                     compression_method,
@@ -2115,8 +2149,7 @@ impl Archive {
 
         if file_info.is_single_unit() || !file_info.is_compressed() {
             // Single unit or uncompressed file - read directly
-            let mut data = vec![0u8; file_info.compressed_size as usize];
-            self.reader.read_exact(&mut data)?;
+            let mut data = self.read_bounded(file_info.compressed_size as usize)?;
 
             // Decrypt if needed
             if file_info.is_encrypted() {
@@ -2149,6 +2182,9 @@ impl Archive {
                     compression::decompress(&data, 0x08, actual_file_size as usize)
                 } else {
                     // COMPRESS flag - has compression type byte prefix
+                    if data.is_empty() {
+                        return Err(Error::compression("Compressed file has no data"));
+                    }
                     let compression_type = data[0];
                     let compressed_data = &data[1..];
 
@@ -2196,8 +2232,7 @@ impl Archive {
             file_info.file_pos
         );
 
-        let mut offset_data = vec![0u8; offset_table_size];
-        self.reader.read_exact(&mut offset_data).map_err(|e| {
+        let mut offset_data = self.read_bounded(offset_table_size).map_err(|e| {
             log::error!("Failed to read offset table: {}", e);
             log::error!(
                 "  Tried to read {} bytes at position 0x{:X}",
@@ -2244,8 +2279,7 @@ impl Archive {
             {
                 // CRC table follows the offset table. It is stored in plain form even for
                 // encrypted files (see `ArchiveBuilder::write_file`).
-                let mut crc_data = vec![0u8; expected_crc_table_size];
-                self.reader.read_exact(&mut crc_data)?;
+                let crc_data = self.read_bounded(expected_crc_table_size)?;
 
                 let mut crcs = Vec::with_capacity(sector_count);
                 let mut cursor = std::io::Cursor::new(&crc_data);
@@ -2272,12 +2306,11 @@ impl Archive {
         }
 
         // Read and decompress each sector
-        let mut decompressed_data = Vec::with_capacity(file_info.file_size as usize);
+        let mut decompressed_data =
+            Vec::with_capacity((file_info.file_size as usize).min(MAX_PREALLOC));
 
-        // Pre-allocate a reusable buffer for sector reading
-        // Add some overhead for compression headers
-        let max_sector_size = sector_size + 1024;
-        let mut sector_buffer = vec![0u8; max_sector_size];
+        // Reusable buffer for sector reading, grown to the largest sector met
+        let mut sector_buffer: Vec<u8> = Vec::new();
 
         for i in 0..sector_count {
             let sector_start = sector_offsets[i] as u64;
@@ -2294,7 +2327,7 @@ impl Archive {
             let sector_size_compressed = (sector_end - sector_start) as usize;
 
             // Calculate expected decompressed size for this sector
-            let remaining = file_info.file_size as usize - decompressed_data.len();
+            let remaining = (file_info.file_size as usize).saturating_sub(decompressed_data.len());
             let expected_size = remaining.min(sector_size);
 
             // Seek to sector data - offsets are absolute from file position
@@ -2303,6 +2336,14 @@ impl Archive {
 
             // Ensure our buffer is large enough
             if sector_size_compressed > sector_buffer.len() {
+                // The offsets come from the archive: the sector must lie inside the
+                // file before a buffer is sized for it
+                let file_len = self.reader.get_ref().metadata()?.len();
+                if file_info.file_pos + sector_end > file_len {
+                    return Err(Error::invalid_format(format!(
+                        "Sector {i} ends at offset {sector_end}, beyond the end of the archive file"
+                    )));
+                }
                 sector_buffer.resize(sector_size_compressed, 0);
             }
 
@@ -2552,16 +2593,45 @@ impl Archive {
                 bet_pos - het_pos
             } else {
                 // Calculate from hash table position
-                self.header.get_hash_table_pos() - het_pos
+                Self::table_extent(self.header.get_hash_table_pos(), het_pos, "HET")?
             }
         } else {
             // Calculate from hash table position
-            self.header.get_hash_table_pos() - het_pos
+            Self::table_extent(self.header.get_hash_table_pos(), het_pos, "HET")?
         };
 
         log::debug!("HET table position: 0x{het_pos:X}, calculated size: {actual_size} bytes");
 
         Ok(actual_size)
+    }
+
+    /// Read exactly `len` bytes at the reader's current position. The length comes from
+    /// the archive's tables, so it is checked against what the file still holds before
+    /// anything is allocated.
+    fn read_bounded(&mut self, len: usize) -> Result<Vec<u8>> {
+        let file_len = self.reader.get_ref().metadata()?.len();
+        let pos = self.reader.stream_position()?;
+        if len as u64 > file_len.saturating_sub(pos) {
+            return Err(Error::Io(std::io::Error::new(
+                std::io::ErrorKind::UnexpectedEof,
+                format!(
+                    "{len} bytes requested at offset 0x{pos:X}, the file ends at 0x{file_len:X}"
+                ),
+            )));
+        }
+        let mut data = vec![0u8; len];
+        self.reader.read_exact(&mut data)?;
+        Ok(data)
+    }
+
+    /// Distance from a table to the table expected after it; an archive whose tables are
+    /// not laid out in that order has no size to infer
+    fn table_extent(next_table_pos: u64, table_pos: u64, name: &str) -> Result<u64> {
+        next_table_pos.checked_sub(table_pos).ok_or_else(|| {
+            Error::invalid_format(format!(
+                "{name} table at 0x{table_pos:X} lies after the hash table at 0x{next_table_pos:X}"
+            ))
+        })
     }
 
     /// Read BET table size from the table header for V3 archives
@@ -2570,7 +2640,7 @@ impl Archive {
         log::debug!("Determining BET table size from file structure");
 
         // Calculate the actual size based on what comes after BET table (usually hash table)
-        let actual_size = self.header.get_hash_table_pos() - bet_pos;
+        let actual_size = Self::table_extent(self.header.get_hash_table_pos(), bet_pos, "BET")?;
 
         log::debug!("BET table position: 0x{bet_pos:X}, calculated size: {actual_size} bytes");
 
